@@ -279,7 +279,8 @@ Qed.
 Lemma step_entry s o f : s_obj (fst (step s o)) = ObFlow TRedirect f -> entry s o f.
 Proof.
   intros H.
-  destruct o; unfold step, upd, do_proceed, do_premature, do_try100, do_try_response, do_read, do_write_body in H;
+  destruct o; unfold step, upd, do_proceed, do_premature, do_try100, do_try_response, do_read, do_write_body,
+    do_call_into_receive in H;
   cbn [fst snd s_obj with_flow with_obj add_consumed add_sent] in H;
   repeat (c15_case_in H; cbn [fst snd s_obj with_flow with_obj add_consumed add_sent] in H);
   try discriminate H;
